@@ -30,7 +30,7 @@ RULE = (
 )
 ASSUMPTIONS = ["only default ignore patterns", "mtime order is used as the witness of write order (tmpfs, ns timestamps)"]
 BUDGET = {"quick": (220, 4), "thorough": (48000, 16)}
-REQUIRED = ["siblings", "chain>=2", "prefix_siblings", "sf", "-n", "child_after_parent", "ignored_child", "ignored_child_after_sf", "sf_into_ignored_child", "sf_far_apart_histories", "same_named_sibling_histories"]
+REQUIRED = ["siblings", "chain>=2", "prefix_siblings", "sf", "-n", "child_after_parent", "ignored_child", "ignored_child_after_sf", "sf_into_ignored_child", "sf_far_apart_histories", "same_named_sibling_histories", "ignored_child_by_path_or_anchored_pattern"]
 
 CFG = {
     "kinds": ["create"] * 7 + ["create_sf"] * 3 + ["put_new", "put_new", "overwrite", "mkdir", "mv", "rm"],
@@ -119,6 +119,9 @@ def _ignored_child(draw):
         "order": list(order),
         # (a trailing-slash pattern does not match the folder entry itself - left unasserted as in C12 - so it is not used here)
         "pattern": draw(st.sampled_from([skip, skip, skip[:2] + "*", "?" + skip[1:]])),
+        # where the excluded history lies and how the pattern names it: by its name (above), by its path from the root
+        # ("grp/Skip"), or anchored to the root level ("/Skip" - a history of the same name one level down stays in)
+        "placement": draw(st.sampled_from(["top", "top", "deep_path", "deep_path", "top_anchored", "top_anchored", "deep_name"])),
         "formats": draw(gen.formats(2)),
         "middle": draw(st.lists(st.sampled_from(["sf_other", "sf_top", "folder", "put", "sf_skip", "sf_skip"]), min_size=1, max_size=3)),
         "n": draw(st.booleans()),
@@ -130,10 +133,23 @@ def strategy(tier):
 
 
 def run_ignored_child(scn, ctx):
-    skip, other = scn["skip"], scn["other"]
+    other = scn["other"]
+    placement = scn.get("placement", "top")
+    skip = ("grp/" if placement.startswith("deep") else "") + scn["skip"]
+    decoy = None
+    scn = dict(scn)
+    if placement == "deep_path":
+        scn["pattern"] = skip
+        decoy = scn["skip"]  # a history of that name directly in the root is not what "grp/<name>" names
+    elif placement == "top_anchored":
+        scn["pattern"] = "/" + skip
+        decoy = "grp/" + scn["skip"]
     with World("c08i") as w:
-        w.build("R", {"top.txt": "t", skip: {"s.txt": "in the ignored history", "d": {"x": "y"}}, other: {"o.txt": "o", "sub": {"p.txt": "p"}}})
-        for r in scn["order"]:
+        w.build("R", {"top.txt": "t", other: {"o.txt": "o", "sub": {"p.txt": "p"}}})
+        w.build("R/" + skip, {"s.txt": "in the ignored history", "d": {"x": "y"}})
+        if decoy:
+            w.build("R/" + decoy, {"keep.txt": "in a history that only shares the name"})
+        for r in [skip if r == scn["skip"] else r for r in scn["order"]] + ([decoy] if decoy else []):
             res = w.create("R/" + r, ["md5"])
             require(res.exit_code == 0, "setup", res.brief(), res)
         res = w.create("R", scn["formats"], extra=["-i", scn["pattern"]])
@@ -166,9 +182,14 @@ def run_ignored_child(scn, ctx):
                 res = w.create("R", scn["formats"])
             require(res.exc is None and res.exit_code == 0, "ignored-child-run", "%s: %s" % (m, res.brief()), res)
         nskip = len(w.manifests("R/" + skip))
+        ndecoy = len(w.manifests("R/" + decoy)) if decoy else 0
         before = w.asc_files()
         res = w.create("R", scn["formats"], flags=["-n"] if scn["n"] else [])
         require(res.exc is None and res.exit_code == 0, "ignored-child-run", "final folder run: " + res.brief(), res)
+        if decoy:
+            require(len(w.manifests("R/" + decoy)) == ndecoy + 1, "which-histories", "the nested history at %r is not what pattern %r names, but it received no generation" % (decoy, scn["pattern"]), res)
+            require(any(p.startswith(decoy + "/") for p in w.read_history("R")[-1][2]["references"] and [r["path"] for r in w.read_history("R")[-1][2]["references"]]), "references", "root generation does not reference %r" % decoy, res)
+            ctx.event("ignored_child_by_path_or_anchored_pattern")
         require(len(w.manifests("R/" + skip)) == nskip, "ignored-child-sealed", "the nested history at %r is excluded by the recorded pattern %r but received a new generation" % (skip, scn["pattern"]), res)
         doc = w.read_history("R")[-1][2]
         bad = [r["path"] for r in doc["records"] if r["path"] == skip or r["path"].startswith(skip + "/")]
